@@ -47,7 +47,7 @@ def run_large(case):
     else:
         sig, conds = corpus.union_base(rng, parts=rng.randint(3, 6), want='strong')
         src = 'union'
-    qs = corpus.derived_queries(rng, sig, conds, 5)
+    qs = corpus.derived_queries(rng, sig, conds, 5, layers=corpus.real_partition(impl.mk_bb(sig, conds)))
     bdesc = {'source': src, 'atoms': len(sig), 'conditionals': len(conds)}
     for (system, p) in CONFIGS:
         cname = impl.cfg_name(system, p)
